@@ -78,6 +78,17 @@ def check_case(case, ctr):
                 bad('minimal-first', exp[0], first_min[i], concept=i)
         if list(c.attributes()) != exp:
             bad('attributes-repeatable', exp, list(c.attributes()), concept=i)
+        # an abandoned partial enumeration and two enumerations in lock-step
+        it = c.attributes()
+        head = next(it, None)
+        del it
+        it1, it2 = c.attributes(), c.attributes()
+        zipped = [x for pair in zip(it1, it2) for x in pair]
+        ctr['calls'] += 3
+        if head != exp[0] or zipped != [x for x in exp for _ in (0, 1)] \
+                or list(c.attributes()) != exp:
+            bad('attributes-after-partial-enumeration', exp, [head, zipped, list(c.attributes())],
+                concept=i)
         mn = c.minimal()
         if i == ref.bottom:
             if mn != case.plab(intent):
